@@ -258,9 +258,11 @@ def iterRaw (C : Compression) (sf : StoreFile) (alive : Nat → Bool) : List (Op
 
 /-! ### merge -/
 
-/-- one source segment of a merge -/
+/-- one source segment of a merge; `codec` is the block codec its store was written with (the
+reader picks it from the footer's decompressor id) -/
 structure SourceSegment where
   store : StoreFile
+  codec : Compression
   alive : Nat → Bool
   hasDeletes : Bool
 
@@ -279,7 +281,7 @@ def copyDocs (C : Compression) (K : Nat) : Writer → List (Option Bytes) → Op
 /-- `write_storable_fields`, trivial doc-id mapping (segments concatenated in order) -/
 def mergeStep (C : Compression) (K minBlocks : Nat) (w : Option Writer) (s : SourceSegment) : Option Writer :=
   w.bind fun w =>
-    if mustCopy C minBlocks s then copyDocs C K w (iterRaw C s.store s.alive)
+    if mustCopy C minBlocks s then copyDocs C K w (iterRaw s.codec s.store s.alive)
     else some (w.stack C s.store.data (checkpointsOf s.store.index))
 
 def mergeStores (C : Compression) (K P minBlocks blockSize : Nat) (segs : List SourceSegment) : Option Bytes :=
